@@ -211,8 +211,21 @@ fn o_inv_spelled(c: &SpelledCase, st: &mut Stats) -> Result<(), String> {
     inv_all(&spell(&c.tuple, &c.choices).assemble(), st)
 }
 
+fn o_hist(h: &crate::history::Hist<PieceCase>, st: &mut Stats) -> Result<(), String> {
+    let text = strings_for(&h.inner, "t");
+    crate::history::judge(h, &text, o_pieces, st)
+}
+
 pub fn sections() -> Vec<Box<dyn Section>> {
     vec![
+        Box::new(Random {
+            name: "piece-lists-after-a-prelude".into(),
+            quick: 16_000,
+            thorough: 400_000,
+            strategy: Box::new(|_| crate::history::ghist(gpieces())),
+            oracle: o_hist,
+            required: vec!["accepted", "refused"],
+        }),
         Box::new(Enumerated {
             name: "piece-lists-exhaustive".into(),
             total: Box::new(|t: Tier| enum_total(t.pick(4, 6))),
